@@ -31,7 +31,7 @@ CHECKS = {
  "C18": ("Lean theorem VM.C18_restart_same (a run seeded with cached values computes the same results and its execution graph excludes the cached nodes); tie: (caching run, restart) pairs over whole DAG / target nodes / cache_deps_of with execution counters and pickle key sets. Partial: pickle round-trip trusted.", "7", "proof over denotation + differential testing"),
  "C16": ("Lean theorem TH.C16_owner_safe: under EVERY interleaving of well-bracketed thread programs (builds, decorated-function calls outside a DAG, calls of shared DAGs) each thread observes a prefix of what it observes alone, for the owner-aware description-context test the code now uses; TH.C16_pinned_witness is the machine-checked counterexample for the test the pinned code used. Tie: real threads forced through scripted interleavings (random + every interleaving of small programs) compared with the model and with solo observations; overlapping runs of one shared DAG with distinct arguments. Partial: atomicity assumed at API-segment granularity.", "7", "invariant proof over all interleavings + scripted real-thread interleavings"),
  "C17": ("(a) both flavours run the same coroutine: same programs executed in both flavours must agree (value or error) under random configurations and scripted completion orders; (b) asyncio.gather of 2-8 concurrent awaits with distinct arguments under scripted completion orders, each must return its own result (per-execution state is a private copy: VM.C01_core applies to each execution separately); (c) Lean TM.C17c_partial: without thread-resource nodes the scheduler never executes a loop-blocking wait; TM.C17c_mixed_witness refutes it for mixed resources = recorded known finding. Partial: the non-interference product theorem for (b) is not mechanised; event-loop fairness trusted.", "7", "proof (liveness partial) + differential/flavour testing"),
- "C19": ("Executable Lean model of compose at table level (VM/Compose.lean: inputs become precomputed holders, restriction to what the outputs need) compared with the real composed DAGs and an independent Python oracle on random and (thorough) exhaustive (inputs, outputs) pairs, alias forms, Ellipsis, error cases, original probed before/after. PARTIAL: the restriction theorem (den of the restricted table agrees on the needed set) is not yet proved; the proved lemmas it rests on are VM.C01_core and the seeded-restart theorem.", "7", "executable model + differential testing (partial proof)"),
+ "C19": ("Lean theorem VM.C19_compose_correct: for every well-formed table, inputs, outputs and supplied values the composed table (inputs become holders of the supplied values; restriction to what the outputs need, proved dependency-closed) returns for every output what the original pipeline computes with those values; the original table is untouched (pure function). Tie: real composed DAGs vs the Lean table-level model and an independent Python oracle on random and (thorough) exhaustive (inputs, outputs) pairs, keyword/indexed uses, alias forms, Ellipsis, error cases; original probed before/after. Out of scope: an output that is also an input (refused/ambiguous by an existing test).", "7", "proof over denotation (restriction theorem) + differential testing"),
 }
 
 NOT_YET = {
